@@ -127,21 +127,21 @@ theorem pid_inj {gp st al gp' st' al' : Str} {g g' : Nat} (h : pid gp st al g = 
   have := congrArg List.length h4
   simpa using this
 
-/-- digest of (grammar path, start, algorithm, grammar mtime, source mtime) -/
-def tid (gp st al : Str) (g t : Nat) : Str := encList [gp, st, al, List.replicate g '\x01', List.replicate t '\x01']
+/-- digest of (grammar path, start, algorithm, grammar mtime, source mtime, content-hash component) -/
+def tid (gp st al : Str) (g t : Nat) (ch : Str) : Str := encList [gp, st, al, List.replicate g '\x01', List.replicate t '\x01', ch]
 
-theorem tid_inj {gp st al gp' st' al' : Str} {g t g' t' : Nat} (h : tid gp st al g t = tid gp' st' al' g' t') :
-    gp = gp' ∧ st = st' ∧ al = al' ∧ g = g' ∧ t = t' := by
+theorem tid_inj {gp st al ch gp' st' al' ch' : Str} {g t g' t' : Nat} (h : tid gp st al g t ch = tid gp' st' al' g' t' ch') :
+    gp = gp' ∧ st = st' ∧ al = al' ∧ g = g' ∧ t = t' ∧ ch = ch' := by
   have := encList_inj h
   simp only [List.cons.injEq, and_true] at this
-  obtain ⟨h1, h2, h3, h4, h5⟩ := this
-  refine ⟨h1, h2, h3, ?_, ?_⟩
+  obtain ⟨h1, h2, h3, h4, h5, h6⟩ := this
+  refine ⟨h1, h2, h3, ?_, ?_, h6⟩
   · have := congrArg List.length h4
     simpa using this
   · have := congrArg List.length h5
     simpa using this
 
-theorem tid_nodash (gp st al : Str) (g t : Nat) : '-' ∉ tid gp st al g t := encList_nodash _
+theorem tid_nodash (gp st al : Str) (g t : Nat) (ch : Str) : '-' ∉ tid gp st al g t ch := encList_nodash _
 
 /-! ### a payload codec for symbol tables: unary code of the characters, terminated by `c` -/
 
@@ -218,7 +218,7 @@ theorem hyp_of (S : Sem) (h1 : S.treeIdent = tid) (h2 : S.parserIdent = pid) (h3
     (h7 : ∀ gp st al g, ∃ b, S.parserBlob gp st al g = closeX b) (h8 : S.encTab = encT) (h9 : S.decTab = decT)
     (h10 : S.entry = fun p h => encList [p, h]) :
     Hyp S where
-  tree_inj := by rw [h1]; exact fun _ _ _ _ _ _ _ _ _ _ h => tid_inj h
+  tree_inj := by rw [h1]; exact fun _ _ _ _ _ _ _ _ _ _ _ _ h => tid_inj h
   tree_nodash := by rw [h1]; exact tid_nodash
   parser_inj := by rw [h2]; exact fun _ _ _ _ _ _ _ _ h => pid_inj h
   parser_nodash := by rw [h2]; exact fun _ _ _ _ => encList_nodash _
